@@ -683,6 +683,7 @@ def nested_state(est):
 # ----------------------------------------------------------------------------------------------
 _TWINS = {}
 _RULES = None
+_STATIC_REPORTED = set()     # source-level correspondence relations already reported in this process
 
 
 def probe_rules():
@@ -1298,16 +1299,20 @@ class CHECK(Check):
                                     f"{o['rules'].get(key)} (flags {mo[3]})", "C19.static_vs_probe", cls=name, cfg=cfg))
                     break
             # (c') helper methods entered at run time during predictions ⊆ the closure the lifter followed; purity flags on
+            # (both are facts about the source text, the same for every case: reported ONCE per run, so that they do not fill
+            #  the violation list before a case with a concrete failing input has been reached)
             lifted = set(flags.get("helperClosure", "").split("|"))
-            for key in ("trace.TO", "trace.ADV"):
+            for key in (("trace.TO", "trace.ADV") if "closure" not in _STATIC_REPORTED else ()):
                 entered = [q for q in o["rules"].get(key, "-").split("|") if q != "-"]
                 missing = [q for q in entered if q not in lifted]
                 if missing or not entered:
                     probs.append(mk("correspondence", f"helper methods entered during predictions ({key}): {entered}; not in the lifted "
                                     f"closure helperPredictClosure: {missing} (lifted {sorted(lifted)})",
                                     "C19.helper_closure_vs_trace", cls=name, cfg=cfg))
+                    _STATIC_REPORTED.add("closure")
                     break
-            if flags.get("predictPure") != "1" or "0" in flags.get("helperPure", "0"):
+            if "flags" not in _STATIC_REPORTED and (flags.get("predictPure") != "1" or "0" in flags.get("helperPure", "0")):
+                _STATIC_REPORTED.add("flags")
                 probs.append(mk("correspondence", f"the lifted predict-purity flags are not all on: predictPure={flags.get('predictPure')} "
                                 f"helperPure={flags.get('helperPure')} (IT,BE,PT,TF)", "C19.predict_pure_flags", cls=name, cfg=cfg))
             if o["rules"].get("cr1d") != "dead":
